@@ -68,7 +68,7 @@ for sid in sorted(os.listdir(root)):
                 caught = True
                 break
         res["caught"] = caught
-        json.dump(res, open(os.path.join(d, "result-%s.json" % prop if as_prop else "result.json"), "w"), indent=1)
+        json.dump(res, open(os.path.join(d, "result-%s.json" % prop if as_prop else ("result-thorough.json" if tier == "thorough" else "result.json")), "w"), indent=1)
         summary.append((sid, prop, "CAUGHT" if caught else "missed (exits %s)" % [r["exit"] for r in res["runs"]]))
     finally:
         subprocess.run(["git", "-C", "/repo", "worktree", "remove", "--force", wt])
